@@ -16,7 +16,6 @@ package io
 import (
 	"reflect"
 
-	"github.com/hprose/hprose-golang/v3/internal/convert"
 	"github.com/modern-go/reflect2"
 )
 
@@ -74,7 +73,7 @@ func (dec *Decoder) decodeBytes(t reflect.Type, tag byte, p *[]byte) {
 		if dec.IsSimple() {
 			*p = dec.ReadStringAsBytes()
 		} else {
-			*p = convert.ToUnsafeBytes(dec.ReadString())
+			*p = []byte(dec.ReadString()) // a copy: the string stays in the reference table
 		}
 	case TagGUID:
 		*p, _ = dec.ReadUUID().MarshalBinary()
